@@ -41,7 +41,12 @@ def insertSorted (x : Nat) : List Nat → List Nat
   | [] => [x]
   | y :: t => if x ≤ y then x :: y :: t else y :: insertSorted x t
 
-def step (st : St) (ws : List String) : St × String :=
+def step (st : St) (ws0 : List String) : St × String :=
+  -- `rawnw`: a datagram delivered without waiting for the goroutine a previous initiation frame
+  -- started (harness/muxh): the same event for the model
+  let ws := match ws0 with
+    | ["rawnw", h] => ["raw", h]
+    | _ => ws0
   match ws with
   | ["new", p] =>
     if p = "0" then ({ m := some { parity := 0 } }, "ok")
@@ -110,6 +115,10 @@ def step (st : St) (ws : List String) : St × String :=
     | some k => (st, if (lookup m.tubes k).isSome then "1" else "0")
     | none => (st, "bad-op")
   | ["stop"] => ({ m := none }, "ok")
+  -- Stop while one more datagram arrives after the send queues were closed: Stop returns all the same
+  | ["stopfeed", h] => match fromHex h with
+    | some b => if b.length ≤ 65535 then ({ m := none }, "ok") else (st, "bad-op")
+    | none => (st, "bad-op")
   | _ => (st, "bad-op")
 
 def main (_ : List String) : IO Unit := loopLines step {}
